@@ -3,6 +3,7 @@ package props
 import (
 	"fmt"
 	"go/constant"
+	"go/token"
 	"sort"
 	"strings"
 
@@ -259,8 +260,80 @@ func runC17(c *Ctx) {
 	}
 	sort.Strings(unmatched)
 	r.Extra["decode_guards_without_affine_match"] = unmatched
+	// RFC 1035 2.3.4: a name is at most 255 octets on the wire. decodeName refuses a label sequence once its end is more
+	// than 255 octets past the start of the name: the constant of that guard is 255 (a smaller one refuses legal names)
+	if dn := c.P.Func("", "decodeName"); dn != nil {
+		found := false
+		core.EachInstr(dn, func(i ssa.Instruction) {
+			iff, ok := i.(*ssa.If)
+			if !ok {
+				return
+			}
+			bo, ok := iff.Cond.(*ssa.BinOp)
+			if !ok || bo.Op != token.GTR {
+				return
+			}
+			k, isC := bo.Y.(*ssa.Const)
+			sub, isSub := bo.X.(*ssa.BinOp)
+			if !isC || !isSub || sub.Op != token.SUB || k.Value == nil {
+				return
+			}
+			// (end of label) - (start offset parameter) > K
+			if sub.Y != ssa.Value(dn.Params[1]) {
+				return
+			}
+			found = true
+			st := core.Proved
+			if k.Int64() != 255 {
+				st = core.Violated
+			}
+			r.Add(core.Obligation{Rule: "decode-guards", Key: "decode-guards packet.decodeName name length limit", Func: core.FuncName(dn), Pos: c.P.Pos(core.PosOf(i)), Status: st,
+				Basis: "label sequence longer than 255 octets refused", Detail: fmt.Sprintf("decodeName refuses a name once it is more than %d octets long; RFC 1035 allows 255 octets on the wire (253 characters of text): names of legal maximum length are refused", k.Int64())})
+		})
+		if !found {
+			r.Add(core.Obligation{Rule: "decode-guards", Key: "decode-guards packet.decodeName name length limit", Func: core.FuncName(dn), Status: core.Undecided, Detail: "the over-long name guard of decodeName was not recognised"})
+		}
+	}
 
 	// record arrays are read relative to the loop counter
+	// a well-formed record is skipped or stored, never refused: each error return of the answer decoder lies under a test
+	// that witnesses a malformation (name decode failed, record runs past the message, RDATA length of an address record
+	// wrong, an in-addr.arpa owner that is not an address). Anything else fails a whole well-formed message.
+	r.Rule("refusals", "every error return of the answer decoder is under a malformation test", 7)
+	if fn := c.P.Method("", "DNSEntry", "decodeRRs"); fn != nil {
+		kg := core.NewKeyGen()
+		core.EachInstr(fn, func(i ssa.Instruction) {
+			ret, ok := i.(*ssa.Return)
+			if !ok || len(ret.Results) == 0 {
+				return
+			}
+			if k, isC := ret.Results[len(ret.Results)-1].(*ssa.Const); isC && k.IsNil() {
+				return
+			}
+			gs := guardsOf(i)
+			why := ""
+			switch {
+			case hasGuard(gs, `^!\(packet\.decodeName\(.*\)#2==nil\)$`):
+				why = "name decode failed"
+			case hasGuard(gs, `^\(.*>len\(arg1\)\)$`):
+				why = "record runs past the message"
+			case hasGuard(gs, `^!\(\(encoding/binary\.bigEndian\)\.Uint16\(.*\)==(4|16)\)$`):
+				why = "address record with a wrong RDATA length"
+			case hasGuard(gs, `^\(net\.ParseIP\(.*\)==nil\)$`) && hasGuard(gs, `^strings\.HasSuffix\(.*,"\.in-addr\.arpa"\)$`):
+				why = "in-addr.arpa owner that is not an address"
+			}
+			st := core.Proved
+			if why == "" {
+				st = core.Violated
+			}
+			msg := ""
+			if cl, isCall := ret.Results[len(ret.Results)-1].(*ssa.Call); isCall && len(cl.Call.Args) > 0 {
+				msg = norm(cl.Call.Args[0])
+			}
+			r.Add(core.Obligation{Rule: "refusals", Key: strings.TrimSuffix(kg.Key("refusals decodeRRs error "+msg), "#0"), Func: core.FuncName(fn), Pos: c.P.Pos(core.PosOf(i)), Status: st,
+				Basis: why, Detail: "decodeRRs returns the error " + msg + " under no malformation test: a well-formed record (an ip6.arpa or service PTR, say) fails the whole message and none of its records is stored"})
+		})
+	}
 	r.Rule("record-loop", "loops over record arrays read every field relative to the loop counter", 10)
 	runRecordLoops(c, []string{"layer_dns.go", "handlers/dns_naming/nbns.go", "handlers/dns_naming/mdns.go", "handlers/dns_naming/dns.go", "handlers/dns_naming/llmnr.go", "handlers/dns_naming/ssdp.go"}, "record-loop")
 
